@@ -198,6 +198,11 @@ def processStep (st : DState) (si : StepIn) : DState × String := Id.run do
     let good := isFC && io.ok && cur.mkt.feeKind != pw.mkt.feeKind && pw.mkt.feeSince == cur.nowNs / NS &&
                 decide (cur.nowNs / NS > cur.mkt.feeSince + WEEK)
     if !good then orc := orc ++ ["o13"]
+  -- C16: a cycle accepted before the `next_change` the fee query announces for this state
+  match si.op with
+  | .exec _ _ .feeCycle =>
+    if io.ok && decide (cur.nowNs / NS < (qFeeDenom cur.mkt cur.env).nextChange) then orc := orc ++ ["o16n"]
+  | _ => pure ()
   -- C14
   let regChanged := !(canonReg cur.reg == canonReg pw.reg)
   let isR := match si.op with | .royalty .. => true | _ => false
